@@ -48,6 +48,8 @@ def _dists():
         "coupling_flow(2 layers)": lambda: flows.coupling_flow(key, base_dist=fd.StandardNormal((2,)), flow_layers=2, nn_width=2, invert=True),
         "maf(invert=True)": lambda: flows.masked_autoregressive_flow(key, base_dist=fd.StandardNormal((2,)), flow_layers=1, nn_width=2, invert=True),
         "maf(invert=False,cond)": lambda: flows.masked_autoregressive_flow(key, base_dist=fd.StandardNormal((2,)), cond_dim=1, flow_layers=1, nn_width=2, invert=False),
+        "maf(2 layers, invert=True)": lambda: flows.masked_autoregressive_flow(key, base_dist=fd.StandardNormal((2,)), flow_layers=2, nn_width=2, invert=True),
+        "planar_flow(2 layers, invert=True)": lambda: flows.planar_flow(key, base_dist=fd.StandardNormal((2,)), flow_layers=2, invert=True, negative_slope=0.1),
         "planar_flow(invert=True)": lambda: flows.planar_flow(key, base_dist=fd.StandardNormal((2,)), flow_layers=1, invert=True, negative_slope=0.1),
         "planar_flow(invert=False)": lambda: flows.planar_flow(key, base_dist=fd.StandardNormal((2,)), flow_layers=1, invert=False, negative_slope=0.1),
     }
@@ -57,8 +59,8 @@ def _dists():
 QUICK = ["T(Normal,Affine)", "T(StdNormal,Exp)", "LogNormal", "T(StdNormal,Tanh)", "T(StdNormal,SoftPlus)", "T(StdNormal,Invert(Affine))",
          "T(Normal,AdditiveCondition) [conditional bijection, unconditional base]", "T(T(Normal,AdditiveCondition),Affine) [conditional base, unconditional bijection]",
          "nested with Chain levels", "coupling_flow(invert=True)", "coupling_flow(invert=False)", "coupling_flow(invert=True,cond)", "maf(invert=True)", "maf(invert=False,cond)",
-         "planar_flow(invert=True)", "planar_flow(invert=False)"]
-THOROUGH = QUICK + ["coupling_flow(2 layers)"]
+         "planar_flow(invert=True)", "planar_flow(invert=False)", "coupling_flow(2 layers)"]
+THOROUGH = QUICK + ["planar_flow(2 layers, invert=True)", "maf(2 layers, invert=True)"]
 ROUNDTRIP_OK = {"T(Normal,Affine)", "T(StdNormal,Invert(Affine))", "T(StdNormal,Exp)", "T(Normal,AdditiveCondition) [conditional bijection, unconditional base]"}
 
 
